@@ -95,6 +95,8 @@ pub struct R1csCase<G: AffineRepr> {
     pub forge: Option<[Vec<G::ScalarField>; 3]>,
     /// party_capacity of both generator objects (only party 0 is ever used by R1CS)
     pub parties: usize,
+    /// add the point of order 2 to the verifier's i-th commitment (cofactor curve only; outside the model's module)
+    pub vtorsion: Option<usize>,
     pub tag: String,
     pub model: bool,
 }
@@ -113,6 +115,7 @@ impl<G: AffineRepr> R1csCase<G> {
             forced: vec![],
             forge: None,
             parties: 1,
+            vtorsion: None,
             vlabel: b"verif-case",
             vprog: None,
             vcommit: vec![],
@@ -321,6 +324,15 @@ pub fn run_case<G: AffineRepr>(c: &R1csCase<G>, curve: &str, modulus: &str) -> C
                 _ => commitments.push(pr.commitments.get(i).copied().unwrap_or_else(G::zero)),
             }
         }
+        if let (Some(i), true) = (c.vtorsion, curve == "curve25519") {
+            // (0, -1): the point of order two of a twisted Edwards curve, decoded without the subgroup check
+            let mut yb = vec![0u8; 32];
+            let minus1 = -<G::BaseField as ark_ff::Field>::ONE;
+            ark_serialize::CanonicalSerialize::serialize_compressed(&minus1, &mut yb.as_mut_slice()).ok();
+            if let Ok(t2) = <G as ark_serialize::CanonicalDeserialize>::deserialize_compressed_unchecked(&yb[..]) {
+                if i < commitments.len() { commitments[i] = (commitments[i].into_group() + G::into_group(t2)).into_affine(); }
+            }
+        }
         let pcv = match &c.vbases {
             None => pc,
             Some((b, bb)) => PedersenGens {
@@ -429,8 +441,12 @@ pub fn gen_cases<G: AffineRepr>(seed: u64, tier: &str, stream: &str, curve_idx: 
         ("mutfields", false) => 36,
         ("mutfields", true) => 72,
         ("violate", false) => 16,
-        ("statement", false) => 38,
+        ("statement", false) => 40,
         ("forge", false) => 16,
+        ("manycons", false) => 9,
+        ("manycons", true) => 21,
+        ("large", false) => 8,
+        ("large", true) => 14,
         ("mutsmall", false) => 32,
         ("mutsmall", true) => 64,
         ("statement", true) => 112,
@@ -445,9 +461,10 @@ pub fn gen_cases<G: AffineRepr>(seed: u64, tier: &str, stream: &str, curve_idx: 
                 let sh = Shape {
                     commits: rng.gen_range(0..3),
                     ops1: rng.gen_range(0..7),
-                    closures: rng.gen_range(0..3),
+                    closures: if k % 5 == 4 { rng.gen_range(3..5) } else { rng.gen_range(0..3) },
                     ops2: rng.gen_range(0..5),
                     allow_missing: k % 4 == 0,
+                    sure: false,
                 };
                 let mut sh = sh;
                 // targeted: the SECOND half of an allocation pair lacks its assignment (first phase: k % 8 == 0; inside a closure: k % 8 == 4)
@@ -502,9 +519,10 @@ pub fn gen_cases<G: AffineRepr>(seed: u64, tier: &str, stream: &str, curve_idx: 
                 let sh = Shape {
                     commits: rng.gen_range(0..4),
                     ops1: rng.gen_range(0..sizes),
-                    closures: if k % 2 == 0 { 0 } else { rng.gen_range(1..3) },
+                    closures: if k % 2 == 0 { 0 } else if k % 8 == 7 { rng.gen_range(3..5) } else { rng.gen_range(1..3) },
                     ops2: rng.gen_range(0..sizes),
                     allow_missing: false,
+                    sure: false,
                 };
                 let g = gen_program::<F<G>>(&mut rng, &sh);
                 let n = (g.n1 + g.n2).next_power_of_two().max(1);
@@ -521,6 +539,7 @@ pub fn gen_cases<G: AffineRepr>(seed: u64, tier: &str, stream: &str, curve_idx: 
                     closures: if k % 2 == 0 { 0 } else { 1 },
                     ops2: rng.gen_range(1..5),
                     allow_missing: false,
+                    sure: false,
                 };
                 let mut g = gen_program::<F<G>>(&mut rng, &sh);
                 let n = (g.n1 + g.n2).next_power_of_two().max(1);
@@ -572,6 +591,7 @@ pub fn gen_cases<G: AffineRepr>(seed: u64, tier: &str, stream: &str, curve_idx: 
                     closures: if k % 3 == 0 { 1 } else { 0 },
                     ops2: rng.gen_range(1..4),
                     allow_missing: false,
+                    sure: false,
                 };
                 let g = gen_program::<F<G>>(&mut rng, &sh);
                 let n = (g.n1 + g.n2).next_power_of_two().max(1);
@@ -612,10 +632,16 @@ pub fn gen_cases<G: AffineRepr>(seed: u64, tier: &str, stream: &str, curve_idx: 
             }
             // statement / context deviations on the verifier side (C05): the proof is honest, the verifier's statement is not the prover's
             "statement" => {
-                let kinds = 19;
+                let kinds = 20;
                 let kind = k % kinds;
-                let sh = Shape { commits: 2 + rng.gen_range(0..2), ops1: 1 + rng.gen_range(0..3), closures: if k % 3 == 0 { 1 } else { 0 }, ops2: 1 + rng.gen_range(0..3), allow_missing: false };
+                let sh = Shape { commits: 2 + rng.gen_range(0..2), ops1: 1 + rng.gen_range(0..3), closures: if k % 3 == 0 { 1 } else { 0 }, ops2: 1 + rng.gen_range(0..3), allow_missing: false, sure: true };
                 let mut g = gen_program::<F<G>>(&mut rng, &sh);
+                // the deviations below need pairwise different commitments (a swap of two identical ones is no deviation)
+                for _ in 0..8 {
+                    let cs: Vec<(F<G>, F<G>)> = g.prog.iter().filter_map(|o| if let COp::Commit(v, vb) = o { Some((*v, *vb)) } else { None }).collect();
+                    if (0..cs.len()).all(|i| (0..i).all(|j| cs[i] != cs[j])) { break; }
+                    g = gen_program::<F<G>>(&mut rng, &sh);
+                }
                 // user data before and (when there is a closure) during construction
                 g.prog.insert(0, COp::Msg(LABELS[4], b"context-A".to_vec()));
                 let mut closure_at = None;
@@ -680,6 +706,15 @@ pub fn gen_cases<G: AffineRepr>(seed: u64, tier: &str, stream: &str, curve_idx: 
                         c.prog.push(COp::Commit(vals[1].1, vals[1].2));
                         name = "missing-duplicate-commitment".into();
                     }
+                    18 => {
+                        // an unconstrained commitment shifted by a small-order point (cofactor curve only; elsewhere this is the control)
+                        c.prog.push(COp::Commit(F::<G>::from(9u64), F::<G>::from(11u64)));
+                        vprog.push(COp::Commit(F::<G>::from(9u64), F::<G>::from(11u64)));
+                        vcommit.push(None);
+                        c.vtorsion = Some(ncom);
+                        c.model = false;
+                        name = "unused-commitment-plus-torsion".into();
+                    }
                     17 => {
                         // a term-less constraint (0 = 0) in front of the verifier's constraints: every later constraint moves up one power of z
                         let pos = vprog.iter().position(|o| matches!(o, COp::Constrain(_))).unwrap_or(vprog.len());
@@ -700,7 +735,7 @@ pub fn gen_cases<G: AffineRepr>(seed: u64, tier: &str, stream: &str, curve_idx: 
             }
             // dishonest prover (hook H4): the proving procedure publishes arbitrary points as (A_I2, A_O2, S2)
             "forge" => {
-                let sh = Shape { commits: rng.gen_range(0..3), ops1: 1 + rng.gen_range(0..3), closures: if k % 2 == 0 { 0 } else { 1 }, ops2: 1 + rng.gen_range(0..3), allow_missing: false };
+                let sh = Shape { commits: rng.gen_range(0..3), ops1: 1 + rng.gen_range(0..3), closures: if k % 2 == 0 { 0 } else { 1 }, ops2: 1 + rng.gen_range(0..3), allow_missing: false, sure: false };
                 let g = gen_program::<F<G>>(&mut rng, &sh);
                 let n = (g.n1 + g.n2).next_power_of_two().max(1);
                 let dim = 2 + 2 * n;
@@ -716,7 +751,7 @@ pub fn gen_cases<G: AffineRepr>(seed: u64, tier: &str, stream: &str, curve_idx: 
             "mutsmall" => {
                 let gates = k % 2;
                 let field = (k / 2) % 16;   // 11 points, 5 scalars
-                let sh = Shape { commits: 1 + rng.gen_range(0..2), ops1: 0, closures: 0, ops2: 0, allow_missing: false };
+                let sh = Shape { commits: 1 + rng.gen_range(0..2), ops1: 0, closures: 0, ops2: 0, allow_missing: false, sure: false };
                 let mut g = gen_program::<F<G>>(&mut rng, &sh);
                 let vals: Vec<F<G>> = g.prog.iter().filter_map(|o| if let COp::Commit(v, _) = o { Some(*v) } else { None }).collect();
                 if gates == 1 {
@@ -741,6 +776,60 @@ pub fn gen_cases<G: AffineRepr>(seed: u64, tier: &str, stream: &str, curve_idx: 
                 c.muts = vec![m];
                 out.push(c);
             }
+            // larger circuits: more than 32 / 64 multipliers (padding to 64 / 128), many commitments; at most one closure so
+            // that the witness satisfies the constraints by construction; the real code only (the model is evaluated on
+            // one of them in the thorough tier)
+            "large" => {
+                if k >= (if thorough { 14 } else { 8 }) { continue; }
+                if k >= (if thorough { 12 } else { 6 }) {
+                    // inner-product lengths of 256 and more with a short first phase: n1 in 1..n/2, many second-phase gates
+                    let n1: usize = 1 + rng.gen_range(0..60);
+                    let n2: usize = 130 + rng.gen_range(0..80);
+                    let v = F::<G>::rand(&mut rng);
+                    let mut prog: Vec<COp<F<G>>> = vec![COp::Commit(v, F::<G>::rand(&mut rng))];
+                    for _ in 0..n1 { prog.push(COp::AllocMul(Some((F::<G>::rand(&mut rng), F::<G>::rand(&mut rng))))); }
+                    prog.push(COp::Constrain(vec![(V::Committed(0), Sx::C(F::<G>::from(1u64))), (V::One, Sx::C(-v))]));
+                    let mut body = vec![ROp::Chal(LABELS[0])];
+                    for _ in 0..n2 { body.push(ROp::AllocMul(Some((Sx::Ch(0), Sx::C(F::<G>::rand(&mut rng)))))); }
+                    prog.push(COp::Randomize(body));
+                    let n = (n1 + n2).next_power_of_two();
+                    let mut c = R1csCase::plain(id, prog, n, n, rng.gen());
+                    c.model = false;
+                    c.tag = format!("honest-large sure=1 n1={} n2={} m=1", n1, n2);
+                    out.push(c);
+                    continue;
+                }
+                let sh = Shape { commits: 4 + rng.gen_range(0..9), ops1: 20 + rng.gen_range(0..(if k % 3 == 2 { 110 } else { 50 })), closures: k % 2, ops2: 5 + rng.gen_range(0..30), allow_missing: false, sure: true };
+                let g = gen_program::<F<G>>(&mut rng, &sh);
+                let n = (g.n1 + g.n2).next_power_of_two().max(1);
+                let mut c = R1csCase::plain(id, g.prog, n, n << (k % 2), rng.gen());
+                c.model = thorough && k == 0 && curve_idx == (seed % 3);
+                c.tag = format!("honest-large sure={} n1={} n2={} m={}", if k % 2 == 0 { 1 } else { 0 }, g.n1, g.n2, g.commits);
+                out.push(c);
+            }
+            // many constraints (C02): a gate-free circuit with thousands of constraints, two adjacent ones violated by +e and -e,
+            // around the positions where block-wise implementations would sit (powers of two); the real code only
+            "manycons" => {
+                let bounds: Vec<usize> = if thorough { vec![64, 128, 256, 512, 1024, 2048, 4096] } else { vec![256, 1024, 4096] };
+                let mut pairs: Vec<usize> = vec![];
+                for b in &bounds { for d in [2usize, 1, 0] { pairs.push(b - d); } }
+                if k >= pairs.len() { continue; }
+                let q = pairs[k];
+                let total = bounds.last().unwrap() + 6;
+                let v = F::<G>::rand(&mut rng);
+                let e = F::<G>::rand(&mut rng);
+                let mut prog: Vec<COp<F<G>>> = vec![COp::Commit(v, F::<G>::rand(&mut rng))];
+                for i in 0..total {
+                    let c1 = F::<G>::from((i as u64) * 7 + 3);
+                    // constraint number i (1-based position q means the q-th and (q+1)-th constraints are the violated pair)
+                    let off = if i + 1 == q { e } else if i == q { -e } else { F::<G>::zero() };
+                    prog.push(COp::Constrain(vec![(V::Committed(0), Sx::C(c1)), (V::One, Sx::C(-(c1 * v) + off))]));
+                }
+                let mut c = R1csCase::plain(id, prog, 1, 1, rng.gen());
+                c.model = false;
+                c.tag = format!("manycons pair={} total={}", q, total);
+                out.push(c);
+            }
             // capacity grid (C17): fixed program per (n1, n2), every capacity pair
             "capgrid" => {
                 let g: usize = if thorough { 5 } else { 3 };
@@ -752,14 +841,26 @@ pub fn gen_cases<G: AffineRepr>(seed: u64, tier: &str, stream: &str, curve_idx: 
                         let mut prng = ChaChaRng::seed_from_u64(seed ^ 0xca9 ^ ((n1 * 16 + n2) as u64));
                         let v: F<G> = F::<G>::rand(&mut prng);
                         let mut prog: Vec<COp<F<G>>> = vec![COp::Commit(v, F::<G>::rand(&mut prng))];
+                        // two ways of opening a gate: allocate_multiplier, or two single allocate calls (every other shape)
+                        let singles = (n1 * 3 + n2) % 2 == 1;
                         for _ in 0..n1 {
-                            prog.push(COp::AllocMul(Some((F::<G>::rand(&mut prng), F::<G>::rand(&mut prng)))));
+                            if singles {
+                                prog.push(COp::Alloc(Some(F::<G>::rand(&mut prng))));
+                                prog.push(COp::Alloc(Some(F::<G>::rand(&mut prng))));
+                            } else {
+                                prog.push(COp::AllocMul(Some((F::<G>::rand(&mut prng), F::<G>::rand(&mut prng)))));
+                            }
                         }
                         prog.push(COp::Constrain(vec![(V::Committed(0), Sx::C(F::<G>::from(1u64))), (V::One, Sx::C(-v))]));
                         if n2 > 0 || (n1 + n2) % 2 == 1 {
                             let mut body = vec![ROp::Chal(LABELS[0])];
                             for _ in 0..n2 {
-                                body.push(ROp::AllocMul(Some((Sx::Ch(0), Sx::C(F::<G>::rand(&mut prng))))));
+                                if singles {
+                                    body.push(ROp::Alloc(Some(Sx::Ch(0))));
+                                    body.push(ROp::Alloc(Some(Sx::C(F::<G>::rand(&mut prng)))));
+                                } else {
+                                    body.push(ROp::AllocMul(Some((Sx::Ch(0), Sx::C(F::<G>::rand(&mut prng))))));
+                                }
                             }
                             prog.push(COp::Randomize(body));
                         }
@@ -797,12 +898,12 @@ pub fn gen_cases<G: AffineRepr>(seed: u64, tier: &str, stream: &str, curve_idx: 
             // RNG discipline (C09): same program under (seed a, seed a, seed b, seed a with other commitment blindings)
             "rngdet" => {
                 if k >= (if thorough { 12 } else { 4 }) { continue; }
-                let sh = Shape { commits: 1 + k % 2, ops1: k % 4, closures: if k % 2 == 1 { 1 } else { 0 }, ops2: 2 + k % 3, allow_missing: false };
+                let sh = Shape { commits: 1 + k % 2, ops1: k % 4, closures: if k % 2 == 1 { 1 } else { 0 }, ops2: 2 + k % 3, allow_missing: false, sure: false };
                 let g = gen_program::<F<G>>(&mut rng, &sh);
                 let n = (g.n1 + g.n2).next_power_of_two().max(1);
                 let sa: u64 = rng.gen();
                 let sb: u64 = rng.gen();
-                for (j, sd) in [sa, sa, sb, sa].iter().enumerate() {
+                for (j, sd) in [sa, sa, sb, sa, sa].iter().enumerate() {
                     let mut prog = g.prog.clone();
                     if j == 3 {
                         for op in prog.iter_mut() {
@@ -810,6 +911,19 @@ pub fn gen_cases<G: AffineRepr>(seed: u64, tier: &str, stream: &str, curve_idx: 
                                 *op = COp::Commit(*v, *vb + F::<G>::from(1u64));
                             }
                         }
+                    }
+                    if j == 4 {
+                        // other blinding factors with the SAME sum (first +1, second -1)
+                        let mut seen = 0;
+                        for op in prog.iter_mut() {
+                            if let COp::Commit(v, vb) = op {
+                                let (v0, b0) = (*v, *vb);
+                                if seen == 0 { *op = COp::Commit(v0, b0 + F::<G>::from(1u64)); }
+                                else if seen == 1 { *op = COp::Commit(v0, b0 - F::<G>::from(1u64)); }
+                                seen += 1;
+                            }
+                        }
+                        if seen < 2 { continue; }
                     }
                     let mut c = R1csCase::plain(format!("c_rngdet_{}_{}_{}", curve_idx, k, j), prog, n, n, *sd);
                     c.model = j == 0;
@@ -821,7 +935,7 @@ pub fn gen_cases<G: AffineRepr>(seed: u64, tier: &str, stream: &str, curve_idx: 
             "mutfields" => {
                 let two_phase = k % 2 == 1;
                 let field = (k / 2) % 18;
-                let sh = Shape { commits: 2, ops1: 3, closures: if two_phase { 1 } else { 0 }, ops2: 3, allow_missing: false };
+                let sh = Shape { commits: 2, ops1: 3, closures: if two_phase { 1 } else { 0 }, ops2: 3, allow_missing: false, sure: false };
                 let mut g = gen_program::<F<G>>(&mut rng, &sh);
                 // make sure there are at least two gates so that L_0 / R_0 exist
                 g.prog.push(COp::AllocMul(Some((F::<G>::rand(&mut rng), F::<G>::rand(&mut rng)))));
@@ -843,7 +957,7 @@ pub fn gen_cases<G: AffineRepr>(seed: u64, tier: &str, stream: &str, curve_idx: 
             }
             // degenerate-but-consistent proofs through forced draws: gate-free circuit, one blinding forced to 0
             "forced" => {
-                let sh = Shape { commits: rng.gen_range(1..3), ops1: 0, closures: 0, ops2: 0, allow_missing: false };
+                let sh = Shape { commits: rng.gen_range(1..3), ops1: 0, closures: 0, ops2: 0, allow_missing: false, sure: false };
                 let mut g = gen_program::<F<G>>(&mut rng, &sh);
                 // a satisfied constraint over the commitments: sum c_i v_i - value = 0
                 let mut terms: Lcx<F<G>> = vec![];
